@@ -19,7 +19,12 @@ Record obs := mkObs {
   o_complete : bool;              (* the run was observed until nothing was left to do *)
   o_nonblocking : bool;           (* every handler returned without blocking, and no replacement request raced
                                      with the hand-over of a message to its handler (see Reader/Proofs.v, [calm]) *)
-  o_nested : list (Z * Z * bool)  (* (m, r, returned): the handler of m issued a blocking request whose response is r *)
+  o_nested : list (Z * Z * bool); (* (m, r, returned): the handler of m issued a blocking request whose response is r *)
+  o_signals : list Z;             (* replies that arrived from the network and are consumed by the connection itself
+                                     (whether or not they are also dispatched as messages): the acknowledgement of
+                                     a confirmable request, the pong that answers a ping *)
+  o_sigwait : list (Z * Z * bool) (* (m, r, returned): the handler of m issued a blocking operation that waits for
+                                     the reply r of that kind (confirmable request -> acknowledgement, ping -> pong) *)
 }.
 
 Fixpoint count (m : Z) (l : list Z) : nat :=
@@ -45,7 +50,8 @@ Definition in_order (o : obs) : bool := negb (o_nonblocking o) || subseq (o_log 
    messages are dispatched meanwhile is [none_dropped]) *)
 Definition never_stalls (o : obs) : bool :=
   negb (o_open o && o_complete o) ||
-  forallb (fun e => match e with (_, r, ret) => negb (mem r (o_accepted o)) || ret end) (o_nested o).
+  (forallb (fun e => match e with (_, r, ret) => negb (mem r (o_accepted o)) || ret end) (o_nested o) &&
+   forallb (fun e => match e with (_, r, ret) => negb (mem r (o_signals o)) || ret end) (o_sigwait o)).
 
 Definition holds (o : obs) : bool :=
   at_most_once o && only_accepted o && none_dropped o && in_order o && never_stalls o.
